@@ -854,7 +854,7 @@ func checkGuardCoversUseRule(p *core.Program, r *core.Report, ps *types.Named, r
 	eng := tf.NewEngine(core.InRepo, 0)  // the prover is analysed without inlining the validator
 	veng := tf.NewEngine(core.InRepo, 3) // the validator may use small in-repo helpers
 	for _, fn := range p.RepoFuncs() {
-		if fn.Signature.Recv() == nil || namedOf(fn.Signature.Recv().Type()) != ps || fn.Signature.Results().Len() != 2 || fn.Signature.Params().Len() != 1 {
+		if fn.Signature.Recv() == nil || namedOf(fn.Signature.Recv().Type()) != ps || fn.Signature.Results().Len() != 2 || requestParamIndex(fn) < 0 || delegateTarget(fn) != nil {
 			continue
 		}
 		if witnessCircuitType(fn) == nil || !strings.Contains(fn.Signature.Results().At(0).Type().String(), "Proof") {
@@ -864,7 +864,7 @@ func checkGuardCoversUseRule(p *core.Program, r *core.Report, ps *types.Named, r
 		r.AnalysedFn(name)
 		r.Count("prover methods", 1)
 		ev := eng.NewEval(fn)
-		psT, paramsT := ev.Params[0], ev.Params[1]
+		psT, paramsT := ev.Params[0], ev.Params[1+requestParamIndex(fn)]
 		// the validator call: a method on the params value taking (uint32, uint32) and returning error
 		var vcall *ssa.Call
 		var validator *ssa.Function
@@ -923,7 +923,7 @@ func checkGuardCoversUseRule(p *core.Program, r *core.Report, ps *types.Named, r
 		// index sites are collected with the in-repo helpers inlined (conversion helpers, generic or not)
 		evIn := tf.NewEngine(core.InRepo, 4).NewEval(fn)
 		evIn.Events() // evaluates every call: the activations of inlined helpers exist afterwards
-		pIn := evIn.Params[1]
+		pIn := evIn.Params[1+requestParamIndex(fn)]
 		evIn.WalkActivations(func(av *tf.Eval) {
 			// the instruction of the prover method through which this activation is reached
 			var rootSite ssa.Instruction
